@@ -3,6 +3,7 @@ package props
 import (
 	"fmt"
 	"go/token"
+	"go/types"
 	"strings"
 
 	"golang.org/x/tools/go/ssa"
@@ -187,4 +188,38 @@ func argNameRule(c *core.Check, r *core.Rule, pkg string, files map[string]bool,
 	if len(pairs) < floor*2/3 {
 		r.Unknown("named argument pairs in "+pkg, "-", fmt.Sprintf("%d pairs found, %d on the tree this rule was written for", len(pairs), floor))
 	}
+}
+
+// FloatCountDivs lists the floating point divisions of fn whose divisor is an integer count converted to float.
+func floatCountDivs(fn *ssa.Function) []*ssa.BinOp {
+	var out []*ssa.BinOp
+	core.Instrs(fn, func(in ssa.Instruction) {
+		b, ok := in.(*ssa.BinOp)
+		if !ok || b.Op != token.QUO {
+			return
+		}
+		bt, isB := b.X.Type().Underlying().(*types.Basic)
+		if !isB || bt.Info()&types.IsFloat == 0 {
+			return
+		}
+		y := b.Y
+		for {
+			if cv, ok := y.(*ssa.Convert); ok {
+				if yt, ok := cv.X.Type().Underlying().(*types.Basic); ok && yt.Info()&types.IsInteger != 0 {
+					if _, isC := cv.X.(*ssa.Const); !isC {
+						out = append(out, b)
+					}
+					return
+				}
+				y = cv.X
+				continue
+			}
+			if ct, ok := y.(*ssa.ChangeType); ok {
+				y = ct.X
+				continue
+			}
+			return
+		}
+	})
+	return out
 }
